@@ -10,6 +10,7 @@ import Sgz.Model.Header
 import Sgz.Model.Container
 import Sgz.Model.HeaderReads
 import Sgz.Model.Version
+import Sgz.Model.Emul
 /-!
 # Tie/Source — the model's arithmetic is the arithmetic of the source as it is now
 
@@ -359,6 +360,7 @@ theorem footer_padding (len : Nat) :
     (len : Int) + Gen.footer_pad_segy len = Container.footerArrayBytes len
     ∧ (len : Int) + Gen.footer_pad_numpy len = Container.footerArrayBytes len := by
   unfold Gen.footer_pad_segy Gen.footer_pad_numpy Container.footerArrayBytes
+  rw [Int.fmod_eq_emod_of_nonneg _ (by decide)]
   constructor <;> omega
 
 /-! ### version.py and the version gates -/
@@ -412,5 +414,49 @@ theorem anticorrelated_diagonal (g : Geo) (ad d lo hi maxLen s e : Int) :
   simp only [Bool.and_eq_true, decide_eq_true_eq]
   refine ⟨?_, ?_, ?_, ?_, ?_, ?_, ?_, ?_⟩ <;>
     first | trivial | rfl | exact Iff.rfl | (constructor <;> intro h <;> omega)
+
+/-! ### accessors.py: `subvolume[...]` subscripts, negative ordinals -/
+
+/-- `_check_subscripts`, bound by bound: with `c0, c1, cl` the first, second and last coordinate of the axis, and
+`d = c1 - c0`; a given bound passes exactly when the model's conjunct holds -/
+theorem subvolume_check_bounds (c0 c1 cl v : Int) :
+    let d := c1 - c0
+    let sign : Int := if d > 0 then 1 else -1
+    Gen.acc_sign c0 c1 = sign
+    ∧ Gen.acc_first c0 sign = sign * c0
+    ∧ Gen.acc_end c0 c1 cl sign = sign * (cl + d)
+    ∧ ((¬ Gen.acc_bad_start (sign * (cl + d)) (sign * c0) sign v True)
+        ↔ (decide (sign * c0 ≤ sign * v) && decide (sign * v < sign * (cl + d))) = true)
+    ∧ ((¬ Gen.acc_bad_stop (sign * (cl + d)) (sign * c0) sign v True)
+        ↔ (decide (sign * c0 < sign * v) && decide (sign * v ≤ sign * (cl + d))) = true)
+    ∧ ((¬ Gen.acc_bad_step c0 c1 v True) ↔ (v % d == 0) = true) := by
+  intro d sign
+  unfold Gen.acc_sign Gen.acc_first Gen.acc_end Gen.acc_bad_start Gen.acc_bad_stop Gen.acc_bad_step
+  refine ⟨rfl, rfl, ?_, ?_, ?_, ?_⟩
+  · show sign * (cl + c1 - c0) = sign * (cl + (c1 - c0))
+    rw [Int.add_sub_assoc]
+  · simp
+  · simp
+  · simp only [true_and, Decidable.not_not, beq_iff_eq, Int.fmod_eq_emod]
+    show (v % (c1 - c0) + (if 0 ≤ c1 - c0 ∨ c1 - c0 ∣ v then 0 else c1 - c0)) = 0 ↔ v % (c1 - c0) = 0
+    by_cases h : 0 ≤ c1 - c0 ∨ c1 - c0 ∣ v
+    · rw [if_pos h]; simp
+    · rw [if_neg h]
+      have hneg : c1 - c0 < 0 := by omega
+      have hnd : ¬ (c1 - c0 ∣ v) := fun hd => h (.inr hd)
+      have h1 : 0 ≤ v % (c1 - c0) := Int.emod_nonneg _ (by omega)
+      have h2 : v % (c1 - c0) ≠ 0 := fun h0 => hnd (Int.dvd_of_emod_eq_zero h0)
+      have h3 : v % (c1 - c0) < -(c1 - c0) := by
+        have := Int.emod_lt_of_pos v (show 0 < -(c1 - c0) by omega)
+        rwa [Int.emod_neg] at this
+      constructor <;> intro hh <;> omega
+
+theorem subvolume_index (c0 c1 cl v : Int) (n k : Int) :
+    Gen.acc_step v c0 c1 = Int.fdiv v (c1 - c0)
+    ∧ (Gen.acc_stop_is_end v c0 c1 cl True ↔ v = cl + c1 - c0)
+    ∧ Gen.acc_negative_index n k = n + k ∧ (Gen.acc_is_negative k ↔ k < 0) := by
+  unfold Gen.acc_step Gen.acc_stop_is_end Gen.acc_negative_index Gen.acc_is_negative
+  refine ⟨rfl, ?_, rfl, Iff.rfl⟩
+  simp
 
 end Sgz.Tie
